@@ -26,6 +26,7 @@ SOURCES = {
     "bed6": {"start": (1, "int"), "stop": (2, "int"), "score": (4, "int"), "name": (3, "name")},
     "narrowpeak": {"start": (1, "int"), "summit": (9, "int")},
     "bdg": {"start": (1, "int"), "stop": (2, "int")},
+    "bed12": {"start": (1, "int"), "score": (4, "int"), "thick_start": (6, "int")},
     "vcf": {"position": (1, "pos")},
     "sam": {"position": (3, "int"), "mapq": (4, "int")},
     "gtf": {},
@@ -110,6 +111,27 @@ def run(ctx):
             if program and (earlier[-1][3] != program):
                 earlier.append((t, list(state), replaced_any, list(program)))
             kind = r.random()
+            if kind < 0.15 and state:
+                # a field is parsed (of the table or of a slice of it, which shares the table's buffers) and the value thrown away:
+                # reading a column must not change what a later write emits
+                import dataclasses
+                target = t if r.random() < 0.5 else t[:max(1, len(state) // 2)]
+                try:
+                    f = r.choice([fl.name for fl in dataclasses.fields(target)])
+                    v = getattr(target, f)
+                    if dataclasses.is_dataclass(v):
+                        sub = r.choice([fl.name for fl in dataclasses.fields(v)])
+                        v = getattr(v, sub)
+                        f = "%s.%s" % (f, sub)
+                    len(v)
+                    ctx.count("access_steps")
+                except Exception as e:
+                    if not originates_in_library(e):
+                        raise
+                    ctx.observe("field-access-raised(C02's business):%s" % type(e).__name__)
+                    return
+                program.append(["access", f, "whole" if target is t else "slice"])
+                continue
             if kind < 0.6 or not state:
                 sel = gen_selection(r, len(state))
                 t = apply_sel_real(t, sel)
